@@ -549,6 +549,9 @@ func (r *resolver) resolveRef(rs *Resolved, s *Schema, ref string) (_ *Schema, d
 			if err != nil {
 				return nil, "", fmt.Errorf("loading %s: %w", fraglessRefURI, err)
 			}
+			if ls == nil {
+				return nil, "", fmt.Errorf("loading %s: loader returned a nil schema and no error", fraglessRefURI)
+			}
 			// Check if referenced schema has $schema defined. If not it should inherit the resolved
 			if ls.Schema == "" {
 				ls.Schema = rs.root.Schema
